@@ -24,6 +24,75 @@ PROPS = {
     },
 }
 
+PROPS["C18"] = {
+    "families": ["satscale"],
+    "n_quick": 200000, "n_thorough": 2000000,
+    "clauses_proved": [
+        "exact inside the range for every documented shift 1..=32: floor((hi*2^32+lo)/2^shift) (sat_scale_exact)",
+        "outside: constant +-(2^31 - 2^(shift-1)), independent of lo (sat_scale_clip)",
+        "never panics for shift 1..=32, result in i32 (sat_scale_total) [after the fix: commit]",
+        "monotone in (hi, lo) for shift <= 16 (sat_scale_monotone_le16)",
+        "NEGATION: not monotone for every shift 17..=32 (sat_scale_not_monotone_ge17): known finding F-C18-a",
+        "NEGATION: shift 32, hi = MIN saturates to 0 (sat_scale_shift32_min_is_zero): known finding F-C18-c",
+    ],
+    "clauses_explored": [],
+    "level_text": "All clauses are kernel-checked theorems about the model for every shift and every (lo, hi); the monotonicity clause is proved for shift <= 16 and its negation is proved for every shift >= 17 (known finding, the code really is non-monotone there). Correspondence covers all shifts 0..=40 incl. contract violations in both profiles; the native oracle checks every clause on boundary lattices for all 32 shifts.",
+    "level_note": "Model: saturatingScale (IdspModel/Model/Unwrap.lean).",
+    "rule": "per shift: hi at both clip boundaries +-3, extremes, random; lo extremes + random; adjacent (hi,lo) pairs",
+}
+PROPS["C10"] = {
+    "families": ["lowpass"],
+    "n_quick": 100000, "n_thorough": 1000000,
+    "clauses_proved": [
+        "first order: for every k in [1, 2^31-1], EVERY i64 state, every x: no overflow in either profile, output and get() between previous output and input (lp1_between)",
+        "first order: constant input reached exactly from every state (lp1_dc_reaches) and held (lp1_dc_fixed)",
+        "set(x); get() = x (lp_set_get)",
+        "second order: one-step linear form under explicit no-overflow preconditions (lp2_step_linear)",
+        "NEGATION: second order wraps/panics near full scale (lp2_fullscale_overflow_witness): known finding F-C10",
+    ],
+    "clauses_explored": [
+        "second order Butterworth settling within 4*2^32/k+4 LSB and <= 5% overshoot for levels within +-2^30 (native sweep)",
+        "second order never wraps for steps whose target level is below 0.95 of full scale (native, against an unbounded-integer reference of the same recurrence)",
+    ],
+    "level_text": "The first-order clauses are theorems for all gains, all i64 states and all inputs. The second-order quantitative clauses are explored only (a quantised second-order loop; no proof attempted), the failing full-scale clause is a proved negation and a known finding.",
+    "level_note": "Model: lp1Update, lp2Update, lpGet, lpSet (IdspModel/Model/Lowpass.lean). Lowpass<N> for N other than 1, 2 is unimplemented!() in the code and not modelled.",
+    "rule": "lp1: arbitrary/set()/reachable states x lattice gains x full-scale alternations; lp2: k lattice x level pairs; each configuration distinct",
+}
+PROPS["C01"] = {
+    "families": ["cossin"],
+    "n_quick": 300000, "n_thorough": 3000000,
+    "clauses_proved": [
+        "no overflow anywhere inside cossin for every phase, both profiles agree (cossin_total, cossin_mode_irrelevant, cossinCore_total_range)",
+        "|cos|,|sin| <= 2147454703 < 2^31, negation fits, squared norm < 2^63 (cossin_range)",
+        "result depends only on the octant and the 22-bit field; low 7 bits ignored (cossin_depends_only_on_field, cossin_ignores_low7)",
+        "quarter turn: (-sin, cos) exactly; half turn; conjugation by bit complement (cossin_quarter_turn, cossin_half_turn, cossin_conj)",
+        "quadrant mirror = XOR 0x3fffffff swaps the magnitudes of cos and sin exactly (cossin_quadrant_mirror, cossin_quadrant_mirror_abs, cossinMirror_is_xor)",
+        "each output sums to exactly zero over all 2^32 phases (cossin_sum_zero), by pairing, not enumeration",
+    ],
+    "clauses_explored": [
+        "accuracy |out/A - (cos,sin)(p*pi/2^31)| < 1e-5 against f64 cos/sin: all 2^32 phases in the thorough tier, 2^24 stratified in quick (max observed 9.0232e-6)",
+    ],
+    "level_text": "All exact clauses (range, symmetries, zero sum, no overflow) are theorems for all 2^32 phases. The accuracy clause compares with the real cos/sin and is explored natively (exhaustively over the finite domain in the thorough tier); it is not a theorem.",
+    "level_note": "Model: cossin, cossinCore, cossinTable (IdspModel/Model/Cossin*.lean); the 128-entry table is compared with the table build.rs generated for the current build on every run (op cossin_tab). Reading of 'mirroring swaps cos and sin': magnitudes swap, signs follow the quadrant (the literal (s, c) is false in odd quadrants: cossin_quadrant_mirror_literal_false).",
+    "rule": "quick: one phase per 256-block (2^24), closed under the half turn; thorough: all 2^32 phases; each phase checked for accuracy, range, three symmetries",
+}
+PROPS["C16"] = {
+    "families": ["dsm"],
+    "n_quick": 100000, "n_thorough": 1000000,
+    "clauses_proved": [
+        "range invariant for every K <= 7, every invariant state, every input list; never panics; both profiles agree (dsm_range, dsm_range_step, dsm_range_from)",
+        "output is the exact (unbounded) MASH-1^K value; run equals the unbounded specification (dsm_mash, dsm_mash_run)",
+        "error identity 2^32*sum(y) - sum(x) = function of the final state, within +-2^(K-1)*2^32, for every prefix (dsm_error_identity, dsm_error_step, dsm_err_bound, dsm_run_prefix)",
+        "constant input mean bound (dsm_const_input_mean)",
+        "K = 8 characterised exactly: deviates only when the exact output is +128 (dsm_step_upto8, dsm_run_upto8); NEGATION witness dsm_k8_overflow_witness: known finding F-C16-b",
+        "K = 0 returns 0 (after the fix: commit)",
+    ],
+    "clauses_explored": [],
+    "level_text": "Every clause is a K-generic kernel-checked theorem over all invariant states and all input lists (no enumeration); for K = 8 the exact deviation condition is proved and the property's failure is a proved negation with a 9-step witness (known finding).",
+    "level_note": "Model: Dsm.update (IdspModel/Model/Dsm.lean).",
+    "rule": "sequences from default: constant, 1-4 bit lattices, carry alignments, random; all 4^6 (4^8 thorough) sequences on the 2-bit lattice for every K; compared with an unbounded reference MASH",
+}
+
 NOT_APPLICABLE = {
     "C%02d" % i: "check not built yet (work in progress in this session; see DESIGN.md section 5 for the plan)" for i in range(1, 21)
 }
